@@ -132,7 +132,22 @@ def classify(tokens):
                     return "missing-close" if tok in "<." else "other"
                 pos[0] += 1
 
-    return item()
+    r = item()
+    if r == "ok" and pos[0] < len(tokens):
+        # text after the first complete item: the property speaks about the TEXT - an opening bracket that is never closed
+        # or an unknown type name anywhere in it must not end in a returned item (D34); other trailing text is not judged
+        rest = tokens[pos[0]:]
+        depth = 0
+        for k, tok in enumerate(rest):
+            if tok == "<":
+                depth += 1
+                if k + 1 < len(rest) and rest[k + 1] not in ("<", ">", "[", "]", ".") and rest[k + 1].upper() not in TYPES:
+                    return "unknown-type"
+            elif tok == ">" and depth > 0:
+                depth -= 1
+        if depth > 0:
+            return "missing-close"
+    return r
 
 
 @bounded("C15", "sml-rejection")
